@@ -48,11 +48,16 @@ pub struct Gate {
     ops: u64,
     broken: bool,
     write_broken: bool,
+    /// every flush returns Pending once (waking itself) before it completes
+    pub slow_flush: bool,
+    flush_begun: bool,
+    /// slow-flush mode: messages handed over but not yet written (a flush writes them)
+    staged: std::collections::VecDeque<Message>,
 }
 
 impl Gate {
     pub fn new(inner: Chan, minor: u32, fault: Option<FaultPlan>, log: Shared, idx: usize) -> Self {
-        Self { inner, minor, fault, log, idx, ops: 0, broken: false, write_broken: false }
+        Self { inner, minor, fault, log, idx, ops: 0, broken: false, write_broken: false, slow_flush: false, flush_begun: false, staged: std::collections::VecDeque::new() }
     }
 
     /// Counts one completed operation; returns the error to inject, if any.
@@ -126,6 +131,10 @@ impl AsyncTransport for Gate {
                 c.minor_version = this.minor;
             }
         }
+        if this.slow_flush {
+            this.staged.push_back(msg);
+            return Ok(());
+        }
         Pin::new(&mut this.inner).send_start(msg).map_err(|_| GateError::Disconnected)
     }
 
@@ -133,6 +142,28 @@ impl AsyncTransport for Gate {
         let this = self.get_mut();
         if this.broken || this.write_broken {
             return Poll::Ready(Err(this.err()));
+        }
+        if this.slow_flush {
+            if !this.flush_begun {
+                this.flush_begun = true;
+                cx.waker().wake_by_ref();
+                return Poll::Pending;
+            }
+            while let Some(m) = this.staged.pop_front() {
+                match Pin::new(&mut this.inner).send_poll_ready(cx) {
+                    Poll::Ready(Ok(())) => {
+                        if Pin::new(&mut this.inner).send_start(m).is_err() {
+                            return Poll::Ready(Err(GateError::Disconnected));
+                        }
+                    }
+                    Poll::Ready(Err(_)) => return Poll::Ready(Err(GateError::Disconnected)),
+                    Poll::Pending => {
+                        this.staged.push_front(m);
+                        return Poll::Pending;
+                    }
+                }
+            }
+            this.flush_begun = false;
         }
         match Pin::new(&mut this.inner).send_poll_flush(cx) {
             Poll::Pending => Poll::Pending,
